@@ -22,6 +22,8 @@ sys.setrecursionlimit(20000)
 
 I = z3.IntVal
 EXC_ALL = 'BaseException'
+OPERATOR_CODES = {n: i + 1 for i, n in enumerate(
+    ['add', 'sub', 'mul', 'truediv', 'mod', 'and_', 'or_', 'xor', 'rshift', 'lshift', 'neg', 'ge', 'le', 'gt', 'lt', 'eq', 'ne'])}
 
 
 class VCError(Exception):
@@ -372,6 +374,8 @@ class Executor:
                 return SV(ty, U.UI(self.coerce(sv, INT).z))
             if s.kind == 'str':
                 return SV(ty, U.US(sv.z))
+            if s.kind == 'fn':
+                return SV(ty, U.UI(sv.z))
             if s.kind == 'ref':
                 return SV(ty, U.UR(sv.z))
             if s.kind == 'opt' and s.args[0].kind == 'ref':
@@ -552,6 +556,8 @@ class Executor:
                 a = a.arg(0)
                 continue
             break
+        if z3.is_quantifier(a) and a.is_lambda() and a.num_vars() == 1:
+            return z3.substitute_vars(a.body(), idx)       # beta-reduction
         return z3.Select(a, idx)
 
     def distinct_refs(self, a, b):
@@ -623,8 +629,7 @@ class Executor:
         return self.select(self.heap_get(st, self.lkey_of(lsv.ty), self.lsort(ety)), lsv.z)
 
     def list_at(self, st, lsv, i):
-        a = self.list_arr(st, lsv)
-        return self.select(a, i) if not z3.is_quantifier(a) else z3.Select(a, i)
+        return self.select(self.list_arr(st, lsv), i)
 
     def set_list(self, st, lsv, n, arr):
         ety = lsv.ty.args[0]
@@ -868,6 +873,8 @@ class Executor:
                     sub.cls = oc
                     return self.ev(st, cst, sub, k)
                 raise VCError(f'class attribute {ci.name}.{e.attr} outside subset')
+            if g is not None and g[0] == 'module' and g[1] == 'operator' and e.attr in OPERATOR_CODES:
+                return k(st, SV(T.FN, I(OPERATOR_CODES[e.attr])))
             if g is not None and g[0] == 'module':
                 raise VCError(f'module attribute {ast.unparse(e)} outside subset')
         # nested class reference LabelScope.LabelInfo handled in calls
@@ -1369,6 +1376,11 @@ class Executor:
             inner = SV(t.args[0], base.z)
             return self.guard_raise(st, cx, base.z == 0, 'TypeError', node,
                                     lambda s: self.index(s, inner, idx, cx, node, k), why='subscript of None')
+        if t.kind == 'union':
+            # subscript of a value that must be a string here
+            U = T.union_datatype()
+            return self.guard_raise(st, cx, z3.Not(U.is_US(base.z)), 'TypeError', node,
+                                    lambda s: self.index(s, SV(STR, U.us(base.z)), idx, cx, node, k), why='subscript of a non-string')
         if t.kind in ('list', 'seq', 'str'):
             if t.kind == 'list':
                 n = self.list_len(st, base)
@@ -1470,6 +1482,9 @@ class Executor:
             if not ks:
                 raise VCError('empty dict literal needs a declared type')
             kt, vt = ks[0].ty, vals[0].ty
+            for b_ in vals[1:]:
+                if b_.ty != vt:
+                    vt = self.join(vt, b_.ty)
             dom = z3.K(T.sort_of(kt), z3.BoolVal(False))
             val = z3.K(T.sort_of(kt), self.fresh(vt, 'dflt').z)
             for a, b in zip(ks, vals):
@@ -1499,6 +1514,10 @@ class Executor:
             return T.opt(self.join(a if a.kind != 'opt' else a.args[0], b.args[0]))
         if {a.kind, b.kind} <= {'int', 'bool'}:
             return INT
+        if {a.kind, b.kind} <= {'int', 'bool', 'float'}:
+            return FLOAT
+        if {a.kind, b.kind} <= {'int', 'bool', 'str', 'fn', 'union'}:
+            return T.Ty('union')
         raise VCError(f'cannot join types {a!r} and {b!r}')
 
     def ev_Lambda(self, st, e, cx, k):
